@@ -452,8 +452,8 @@ def build_harness(wd, files, compiler, std, tag):
         return None, [{"src": mainp, "output": out[-4000:]}], dead
     objs.append(obj)
     exe = os.path.join(wd, f"harness_{tag}")
-    san = SAN_CLANG if compiler.startswith("clang") else SAN_GCC
-    rc, out, err = run([compiler] + san + objs + ["-o", exe])
+    from vlib import link_cmd
+    rc, out, err = run(link_cmd(compiler, objs, exe))
     if rc != 0:
         return None, [{"src": "link", "output": (out + err)[-4000:]}], dead
     return exe, failures, dead
@@ -564,10 +564,12 @@ def explore(prop, tier, seed, rng, wd):
     for i, a in zip(oi, g3):
         gates[("cmp3", i["id"])] = gates[i["id"]] and kv(a).get("compiles") == "1"
     files = write_harness(wd, insts, gates)
-    configs = [("g++", "c++14", "g14"), (("clang++-14", "c++20", "c20") if seed % 2 == 0 else ("g++", "c++17", "g17"))]
+    # "exact" = clang++-14 with the exact-count UBSan handlers (vlib.SAN_EXACT): the full runtimes report a source
+    # location once per process, so per-input `ub` counts are only reliable in this build
+    configs = [("g++", "c++14", "g14"), (("exact", "c++20", "x20") if seed % 2 == 0 else ("exact", "c++17", "x17"))]
     if tier == "thorough":
         configs = [("g++", "c++14", "g14"), ("g++", "c++20", "g20"), ("clang++-14", "c++14", "c14"), ("clang++-14", "c++17", "c17"),
-                   ("clang++-14", "c++20", "c20")]
+                   ("clang++-14", "c++20", "c20"), ("exact", "c++14", "x14")]
     by_id = {i["id"]: i for i in insts}
     stats = {"instances": len(insts), "E_instances": sum(1 for i in insts if i["kind"] == "E"),
              "O_instances": sum(1 for i in insts if i["kind"] == "O"), "gate_ok": sum(1 for k, v in gates.items() if v and not isinstance(k, tuple)),
